@@ -31,7 +31,8 @@ LEVEL_TEXT = ("Lean 4 theorems, for all residual maps, weights (scalar / per-com
               "is tied to /repo on every run: real losses are evaluated on integer-polynomial networks and equations "
               "(all float64 operations exact, JAX AD included) and compared by equality with the model fed with "
               "exact value tables; Holds.C03 is evaluated on the implementation's own outputs, including four "
-              "metamorphic re-evaluations of the implementation.")
+              "metamorphic re-evaluations of the implementation."
+              "  Holds.C03 itself is proved of every output of the model's evalODE / evalStatio / evalNonStatio with all metamorphic re-evaluations (holdsC03_model_*), and the dynamic term of a separable network is the same closed form over the tensor grid of the batch (lossStatioSpinnDyn_dyn).")
 LEVEL_NOTE = ("Trusted: Lean kernel + {propext, Classical.choice, Quot.sound}; the hand-written aggregation model's tie "
               "to the code is differential (sees the generated configurations); the residual at a point is an oracle "
               "value computed by the harness with exact polynomials (the user's equation and JAX AD are not modelled); "
